@@ -170,6 +170,26 @@ func cmdConc(args []string) {
 			return interpreter.StaticStore{Balances: mkBalances(c.Bal), Meta: mkMeta(c.Meta)}
 		}
 		bg := context.Background()
+		var freeOuts []Outcome
+		var freeUnchanged bool
+		if freeRun {
+			// free-running goroutines on shared inputs FIRST (for the race detector: a lazily initialised
+			// shared object is only raced on its first use in the process)
+			sh := interpreter.StaticStore{Balances: mkBalances(c.Bal), Meta: mkMeta(c.Meta)}
+			v2 := copyVars(c.RawVars)
+			freeOuts = make([]Outcome, 8)
+			var wg sync.WaitGroup
+			for g := 0; g < 8; g++ {
+				wg.Add(1)
+				go func(g int) {
+					defer wg.Done()
+					freeOuts[g] = runParsed(bg, p, v2, sh, c.FlagOvd)
+				}(g)
+			}
+			wg.Wait()
+			nruns += 8
+			freeUnchanged = balEqual(sh.Balances, c.Bal) && metaEqual(sh.Meta, c.Meta) && reflect.DeepEqual(v2, c.RawVars)
+		}
 		seq := runParsed(bg, p, copyVars(c.RawVars), fresh(), c.FlagOvd)
 		nruns++
 		line := J{"e": "conc", "id": i, "text": c.Text, "bal": c.Bal, "meta": c.Meta, "rawvars": c.RawVars, "flagovd": c.FlagOvd, "seq": outcomeJ(seq)}
@@ -223,26 +243,11 @@ func cmdConc(args []string) {
 				"inputsUnchanged": balEqual(sh.Balances, c.Bal) && metaEqual(sh.Meta, c.Meta) && reflect.DeepEqual(v2, c.RawVars)})
 		}
 		if freeRun {
-			// free-running goroutines on shared inputs (for the race detector)
-			sh := interpreter.StaticStore{Balances: mkBalances(c.Bal), Meta: mkMeta(c.Meta)}
-			v2 := copyVars(c.RawVars)
-			outs := make([]Outcome, 8)
-			var wg sync.WaitGroup
-			for g := 0; g < 8; g++ {
-				wg.Add(1)
-				go func(g int) {
-					defer wg.Done()
-					outs[g] = runParsed(bg, p, v2, sh, c.FlagOvd)
-				}(g)
-			}
-			wg.Wait()
-			nruns += 8
 			os := []any{}
-			for _, o := range outs {
+			for _, o := range freeOuts {
 				os = append(os, outcomeJ(o))
 			}
-			gated = append(gated, J{"schedule": []int{}, "outs": os,
-				"inputsUnchanged": balEqual(sh.Balances, c.Bal) && metaEqual(sh.Meta, c.Meta) && reflect.DeepEqual(v2, c.RawVars)})
+			gated = append(gated, J{"schedule": []int{}, "outs": os, "inputsUnchanged": freeUnchanged})
 		}
 		line["gated"] = gated
 		lw.write(line)
